@@ -690,9 +690,13 @@ static int cif_value_clone_table(struct table_value_s *value, struct table_value
 #define uthash_fatal(msg) FAIL(hash, CIF_MEMORY_ERROR)
                         HASH_ADD_KEYPTR(hh, temp.map.head, new_entry->key, U_BYTES(new_entry->key), new_entry);
                         continue;
+
+                        FAILURE_HANDLER(hash):
+                        /* the new entry must not remain in the table, and its (successfully cloned) value is not needed */
+                        HASH_ADD_UNDO(hh, temp.map.head, new_entry);
+                        cif_value_clean(new_value);
                     }
 
-                    FAILURE_HANDLER(hash):
                     free(new_entry->key_orig);
                 }
                 free(new_entry->key);
@@ -859,6 +863,8 @@ static int cif_table_deserialize(struct table_value_s *table, read_buffer_tp *bu
     }
 
     FAILURE_HANDLER(hash):
+    /* the entry must not remain in the table */
+    HASH_ADD_UNDO(hh, temp.as_table.map.head, entry);
     cif_value_free(&(entry->as_value));
 
     FAILURE_HANDLER(value):
